@@ -1,22 +1,42 @@
 #!/usr/bin/env python3
-"""mk_tables.py <prop> : write lean/GlmVerif/Props/<prop>/T_<family>.lean, one kernel-checked table
-theorem per family of Spec/<prop>.lean (separate modules so that lake checks them in parallel).
-Run by hand when a family is added; the output is committed (it is not regenerated by the checks)."""
-import re, sys, os
+"""mk_tables.py <prop> : write lean/GlmVerif/Props/<prop>/T_<family>.lean — one kernel-checked table
+theorem per family of Spec/<prop>.lean, each importing only the generated module of the units it talks
+about (so lake re-checks, in parallel, exactly the tables whose traces changed) — and
+lean/GlmVerif/Props/<prop>/All.lean with `all_ok`.  Run by hand when a family is added; the output is
+committed (the checks do not regenerate it)."""
+import re, sys, os, subprocess
 prop = sys.argv[1]
-root = os.path.join(os.path.dirname(os.path.abspath(__file__)), '..', 'lean', 'GlmVerif')
-spec = open(os.path.join(root, 'Spec', prop + '.lean')).read()
-fams = re.findall(r'^def f_(\w+) : Family', spec, flags=re.M)
+here = os.path.dirname(os.path.abspath(__file__))
+root = os.path.join(here, '..', 'lean', 'GlmVerif')
+subprocess.run([os.path.join(here, 'lake.sh'), 'build', 'GlmVerif.Spec.All'], check=True, stdout=subprocess.DEVNULL)
+out = subprocess.run(['lake', 'env', 'lean', '--run', os.path.join(here, 'ListFams.lean'), prop], cwd=os.path.join(here, '..', 'lean'),
+                     check=True, stdout=subprocess.PIPE, text=True).stdout
+fams = [l.split() for l in out.strip().split('\n') if l.strip()]
 d = os.path.join(root, 'Props', prop)
 os.makedirs(d, exist_ok=True)
-for f in fams:
-    open(os.path.join(d, 'T_%s.lean' % f), 'w').write('''import GlmVerif.Spec.%s
-import GlmVerif.Gen.%s
-/-! table check of family `%s` against the model generated from /repo (kernel evaluation) -/
+keep = {'All.lean'}
+for name, unit in fams:
+    keep.add('T_%s.lean' % name)
+    open(os.path.join(d, 'T_%s.lean' % name), 'w').write('''import GlmVerif.Spec.%s
+import GlmVerif.Gen.%s.%s
+/-! table check of family `%s` against the model of its units generated from /repo (kernel evaluation) -/
 namespace Glm.Props.%s
 open Glm Glm.Spec.%s Glm.Gen.%s
-theorem %s_ok : f_%s.ok lookup = true := by decide +kernel
+set_option maxHeartbeats 4000000 in
+theorem %s_ok : f_%s.ok (fun _ ks => %s_L ks) = true := by decide +kernel
 end Glm.Props.%s
-''' % (prop, prop, f, prop, prop, prop, f, f, prop))
-print('\n'.join('import GlmVerif.Props.%s.T_%s' % (prop, f) for f in fams))
-print('exact ⟨%s⟩' % ', '.join(f + '_ok' for f in fams))
+''' % (prop, prop, unit, name, prop, prop, prop, name, name, unit, prop))
+for f in os.listdir(d):
+    if f.endswith('.lean') and f not in keep: os.remove(os.path.join(d, f))
+imports = ''.join('import GlmVerif.Props.%s.T_%s\n' % (prop, n) for n, _ in fams)
+items = ',\n    '.join('(Family.ok_congr f_%s (fun ks => by rw [show f_%s.unit = "%s" from rfl, lookup_%s])).trans %s_ok' % (n, n, u, u, n) for n, u in fams)
+open(os.path.join(d, 'All.lean'), 'w').write('''import GlmVerif.Gen.%s
+%s/-! every family table of %s holds for the model generated from the current /repo -/
+namespace Glm.Props.%s
+open Glm Glm.Spec.%s Glm.Gen.%s
+theorem all_ok : ∀ f ∈ families, f.ok lookup = true := by
+  simp only [families, List.mem_cons, List.not_mem_nil, or_false, forall_eq_or_imp, forall_eq]
+  exact ⟨%s⟩
+end Glm.Props.%s
+''' % (prop, imports, prop, prop, prop, prop, items, prop))
+print('families:', len(fams))
